@@ -1040,7 +1040,7 @@ SCENARIOS = {"jar": scen_jar, "pe": scen_pe, "cab": scen_cab, "msi": scen_msi, "
 
 
 # ====================================================================================================== the matrix
-def matrix(tier):
+def matrix(tier, seed=1):
     """list of (format, params).  quick: every format x key type x digest at least once + the boundary inputs; thorough: the products."""
     T = tier == "thorough"
     M = []
@@ -1159,6 +1159,27 @@ def matrix(tier):
     for k, dg in (("rsa2048", "sha256"), ("p256", "sha256"), ("rsa3072", "sha384"), ("p521", "sha512")):
         add("appx", recipe="fixture:App1_1.0.3.0_x64.appx", key=k, digest=dg)
     add("appx", recipe="fixture:App1_1.0.3.0_x64.appx", key="rsa2048", digest="sha256", remote=True)
+    # ---- randomised well-formed inputs (seeded by VERIF_SEED): layout parameters, key, digest and flags drawn at random
+    import random
+    R = random.Random(seed * 1000003 + (7 if T else 0))
+    nrand = 60 if T else 12
+    for i in range(nrand):
+        n = seed * 100000 + i
+        k = R.choice(keys_all)
+        dg = R.choice(["sha1", "sha256", "sha384", "sha512"])
+        add("pe", recipe="pe:rand=%d" % n, key=k, digest=dg if dg in ("sha1", "sha256") or R.random() < 0.5 else "sha256",
+            flags=("--page-hashes",) if dg in ("sha1", "sha256") and R.random() < 0.6 else (), resign=R.random() < 0.2)
+        k = R.choice(keys_all)
+        add("cab", recipe="cab:rand=%d" % n, key=k, digest=R.choice(["sha1", "sha256", "sha384", "sha512"]), resign=R.random() < 0.2)
+        k = R.choice(keys_all)
+        add("msi", recipe="msi:rand=%d" % n, key=k, digest=R.choice(["sha1", "sha256", "sha384", "sha512"]), flags=("--no-extended-sig",) if R.random() < 0.3 else (), resign=R.random() < 0.2)
+        k = R.choice(keys_all)
+        fl = tuple(f for f in ("--sections-only", "--inline-signature") if R.random() < 0.25)
+        add("jar", recipe="jar:rand=%d" % n, key=k, digest=R.choice(["sha1", "sha256", "sha384", "sha512"]), flags=fl, remote=R.random() < 0.15)
+        add("pgp", recipe="text:rand=%d" % n, digest=R.choice(["sha256", "sha384", "sha512"]), mode=R.choice(["detached", "armor", "textmode", "inline", "inline-armor", "clearsign"]))
+    for i in range(6 if T else 2):
+        size = R.randint((1 << 20) - 3000, 3 * (1 << 20) + 3000)
+        add("apk", recipe="apk:pad=%d" % size, key=R.choice(keys_all), digest=R.choice(["sha256", "sha512"]), v1_first=R.random() < 0.3)
     # ---- RFC 3161 timestamps from the local openssl TSA (standalone signing; every PKCS#7 carrier)
     for k, dg in (("rsa2048", "sha256"), ("p256", "sha512"), ("rsa3072", "sha1")) + ((("p521", "sha384"),) if T else ()):
         add("jar", recipe="fixture:hello.jar", key=k, digest=dg, ts=True)
@@ -1206,7 +1227,7 @@ def run(ctx, replay=None):
         ctx.notes.append("local TSA could not be set up (%s): timestamp scenarios skipped" % env.tsa.error)
     else:
         env.ts_conf = env.tsa.relic_config(kit.conf, os.path.join(ctx.scratch, "c05", "relic-ts.yml"))
-    M = [(f, p) for f, p in matrix(ctx.tier) if not p.get("ts") or env.ts_conf]
+    M = [(f, p) for f, p in matrix(ctx.tier, ctx.seed) if not p.get("ts") or env.ts_conf]
     if replay:
         try:
             rp = json.load(open(replay))
